@@ -582,7 +582,10 @@ def drv_query(tier, seed):
     root = eval(expr)  # pylint: disable=eval-used
     p = KP(list(path))
     g = _out(p.query, root)
-    chk('query.node/plain-dict-int-key', (expr, path), g == ('ok', 'x') and _out(p.exists, root) == ('ok', True), lambda: f'query -> {g}',
+    want_ = root
+    for k_ in path:
+      want_ = want_[k_]
+    chk('query.node/plain-dict-int-key', (expr, path), g == ('ok', want_) and _out(p.exists, root) == ('ok', True), lambda: f'query -> {g}',
         f'import pyglove as pg; assert pg.KeyPath({list(path)!r}).query({expr}) == "x"')
   return rec.result()
 
